@@ -185,10 +185,9 @@ class TrigTime:
 
         async def user_task_add_done_callback(task, callback, *args, **kwargs):
             """Implement task.add_done_callback()."""
-            ast_ctx = None
-            if type(callback) is EvalFuncVar:
-                ast_ctx = callback.get_ast_ctx()
-            Function.task_add_done_callback(task, ast_ctx, callback, *args, **kwargs)
+            # the callback runs on the evaluator of the task that finished; the evaluator stored in the
+            # function variable loaded the whole file and would be shared by concurrent callbacks
+            Function.task_add_done_callback(task, None, callback, *args, **kwargs)
 
         funcs = {
             "task.add_done_callback": user_task_add_done_callback,
